@@ -28,15 +28,17 @@ EXTENDS Ice, Integers, Json, CSV, IOUtils
 
 TraceLog == ndJsonDeserialize(IOEnv.QXV_TRACE)
 
-VARIABLES l, cid, kind, viol, ndiv, divs, dflag, ncases, stats
+VARIABLES l, cid, kind,
+          viol, nviol,    \* predicate failures: a bounded sample (ViolCap per predicate, in trace order) and their number
+          ndiv, divs, dflag, ncases, stats
 
-tvars == <<vars, l, cid, kind, viol, ndiv, divs, dflag, ncases, stats>>
+tvars == <<vars, l, cid, kind, viol, nviol, ndiv, divs, dflag, ncases, stats>>
 
 Stats0 == [steps |-> 0, forged |-> 0, valid |-> 0, negos |-> 0, data |-> 0, unquiet |-> 0]
 
 TInit ==
     /\ Init /\ ctl = FALSE
-    /\ l = 1 /\ cid = "" /\ kind = "" /\ viol = {} /\ ndiv = 0 /\ divs = <<>> /\ dflag = FALSE /\ ncases = 0
+    /\ l = 1 /\ cid = "" /\ kind = "" /\ viol = {} /\ nviol = 0 /\ ndiv = 0 /\ divs = <<>> /\ dflag = FALSE /\ ncases = 0
     /\ stats = Stats0
 
 (* --- projections of a model step, in the shape of the observation ---------------------------------- *)
@@ -68,12 +70,16 @@ Diverge(d, info) ==
     /\ divs' = IF d /\ ~dflag /\ Len(divs) < 10 THEN Append(divs, [case |-> cid, line |-> l] @@ info) ELSE divs
 NoDiverge == UNCHANGED <<dflag, ndiv, divs>>
 V(prop, what) == [case |-> cid, line |-> l, prop |-> prop, what |-> what]
+ViolCap == 60
+AddViol(S) ==
+    /\ viol' = viol \cup {v \in S : Cardinality({u \in viol : u.prop = v.prop}) < ViolCap}
+    /\ nviol' = nviol + Cardinality(S)
 
 ResetStep(ev) ==
     /\ Reinit(IF ev.kind = "script" THEN ev.ctl ELSE FALSE)
     /\ cid' = ev.case /\ kind' = ev.kind /\ dflag' = FALSE /\ ncases' = ncases + 1
     /\ stats' = IF ev.kind = "nego" THEN [stats EXCEPT !.negos = @ + 1] ELSE stats
-    /\ UNCHANGED <<viol, ndiv, divs>>
+    /\ UNCHANGED <<viol, nviol, ndiv, divs>>
 
 ScriptStep(ev) ==
     LET isRecv == ev.e = "Recv"
@@ -82,8 +88,7 @@ ScriptStep(ev) ==
     /\ \/ ModelAct(ev)
        \/ (~ENABLED ModelAct(ev)) /\ UNCHANGED vars
     \* C15 (safety): a datagram without a valid integrity code changes nothing
-    /\ viol' = IF P_AuthOnly(isRecv, auth, Changed(ev.o)) THEN viol
-               ELSE viol \cup {V("AuthOnly", ToJson(ev.d))}
+    /\ AddViol(IF P_AuthOnly(isRecv, auth, Changed(ev.o)) THEN {} ELSE {V("AuthOnly", ToJson(ev.d))})
     /\ stats' = [stats EXCEPT !.steps = @ + 1,
                               !.forged = IF isRecv /\ auth # "valid" THEN @ + 1 ELSE @,
                               !.valid = IF isRecv /\ auth = "valid" THEN @ + 1 ELSE @,
@@ -100,8 +105,8 @@ HostPrio(c) == LET r == c.prio - 2113929216 - (256 - c.comp) IN r >= 0 /\ r % 25
 CandOk(c) == c.type = "host" /\ c.proto = "udp" /\ c.comp >= 1 /\ c.comp <= 256 /\ HostPrio(c)
 
 CandsStep(ev) ==
-    /\ viol' = viol \cup {V("Priority", ToJson(ev.c[i])) : i \in {j \in 1..Len(ev.c) : ~CandOk(ev.c[j])}}
-                    \cup (IF Len(ev.c) = 0 THEN {V("Priority", "no candidates")} ELSE {})
+    /\ AddViol({V("Priority", ToJson(ev.c[i])) : i \in {j \in 1..Len(ev.c) : ~CandOk(ev.c[j])}}
+               \cup (IF Len(ev.c) = 0 THEN {V("Priority", "no candidates")} ELSE {}))
     /\ Diverge(\E i \in 1..Len(ev.c) : ev.c[i].prio # 2113929216 + 16776960 + (256 - ev.c[i].comp),
                [what |-> "local preference is not 65535", model |-> <<>>, impl |-> ev.c])
     /\ UNCHANGED <<vars, cid, kind, ncases, stats>>
@@ -110,23 +115,23 @@ NegoStep(ev) ==
     LET connects == ev.connA >= 1 /\ ev.connB >= 1 /\ ev.iscA /\ ev.iscB
         honestOnly == ev.attackerRx = 0 /\ (ev.nselA > 0 => ev.selA) /\ (ev.nselB > 0 => ev.selB)
     IN
-    /\ viol' = viol \cup (IF connects THEN {} ELSE {V("Connects", ToJson([connA |-> ev.connA, connB |-> ev.connB, iscA |-> ev.iscA, iscB |-> ev.iscB, discA |-> ev.discA, discB |-> ev.discB]))})
-                    \cup (IF honestOnly THEN {} ELSE {V("AuthOnly-nego", ToJson([attackerRx |-> ev.attackerRx, selA |-> ev.selA, selB |-> ev.selB]))})
+    /\ AddViol((IF connects THEN {} ELSE {V("Connects", ToJson([connA |-> ev.connA, connB |-> ev.connB, iscA |-> ev.iscA, iscB |-> ev.iscB, discA |-> ev.discA, discB |-> ev.discB]))})
+               \cup (IF honestOnly THEN {} ELSE {V("AuthOnly-nego", ToJson([attackerRx |-> ev.attackerRx, selA |-> ev.selA, selB |-> ev.selB]))}))
     /\ Diverge(ev.connA # 1 \/ ev.connB # 1, [what |-> "connected signals", model |-> <<1, 1>>, impl |-> <<ev.connA, ev.connB>>])
     /\ UNCHANGED <<vars, cid, kind, ncases, stats>>
 
 DataStep(ev) ==
-    /\ viol' = IF ev.got = <<ev.sent>> THEN viol ELSE viol \cup {V("Data", ToJson([dir |-> ev.dir, comp |-> ev.comp, sent |-> ev.sent, got |-> ev.got]))}
+    /\ AddViol(IF ev.got = <<ev.sent>> THEN {} ELSE {V("Data", ToJson([dir |-> ev.dir, comp |-> ev.comp, sent |-> ev.sent, got |-> ev.got]))})
     /\ stats' = [stats EXCEPT !.data = @ + 1]
     /\ NoDiverge
     /\ UNCHANGED <<vars, cid, kind, ncases>>
 
 NegoEndStep(ev) ==
-    /\ viol' = IF ev.attackerRx = 0 THEN viol ELSE viol \cup {V("AuthOnly-nego", ToJson([attackerRx |-> ev.attackerRx]))}
+    /\ AddViol(IF ev.attackerRx = 0 THEN {} ELSE {V("AuthOnly-nego", ToJson([attackerRx |-> ev.attackerRx]))})
     /\ NoDiverge
     /\ UNCHANGED <<vars, cid, kind, ncases, stats>>
 
-OtherStep == UNCHANGED <<vars, cid, kind, viol, ndiv, divs, dflag, ncases, stats>>
+OtherStep == UNCHANGED <<vars, cid, kind, viol, nviol, ndiv, divs, dflag, ncases, stats>>
 
 TNext ==
     /\ l <= Len(TraceLog)
@@ -142,6 +147,6 @@ TNext ==
 
 TSpec == TInit /\ [][TNext]_tvars
 
-Summary == [cases |-> ncases, lines |-> l - 1, viol |-> viol, ndiv |-> ndiv, divs |-> divs, stats |-> stats]
+Summary == [cases |-> ncases, lines |-> l - 1, viol |-> viol, nviol |-> nviol, ndiv |-> ndiv, divs |-> divs, stats |-> stats]
 Done == l <= Len(TraceLog) \/ CSVWrite("%1$s", <<ToJson(Summary)>>, IOEnv.QXV_SUMMARY)
 =============================================================================
